@@ -529,4 +529,138 @@ theorem cyc_g0_mul_g5 (a : Fp12 R) (h : IsCyc12 ξ a) : a.c1.c2 * g0Defect ξ a 
 
 end partB
 
+/-! ### decompression over a field (fp2 is one) -/
+
+section backcyc
+variable {F : Type} [Field F] [DecidableEq F] (hf ξ : F)
+
+/-- the operations of a field -/
+def fieldOps : FOps F := rOps (fun x => x⁻¹) (fun x => hf * x) (fun x => decide (x = 0))
+
+local notation "fo" => fieldOps (F := F) hf
+local notation "nor" => (fun t : F => ξ * t)
+
+/-- the element is not the zero of fp12 -/
+def NonZero12 (a : Fp12 F) : Prop :=
+  ¬ (a.c0.c0 = 0 ∧ a.c0.c1 = 0 ∧ a.c0.c2 = 0 ∧ a.c1.c0 = 0 ∧ a.c1.c1 = 0 ∧ a.c1.c2 = 0)
+
+/-- Karabina's second relation holds for every non-zero solution of the cyclotomic relations (the zero vector satisfies
+    the six relations but not this one: it is not in the group) -/
+theorem cyc_g0 (a : Fp12 F) (h : IsCyc12 ξ a) (hne : NonZero12 a) :
+    a.c0.c0 = ξ * (2 * a.c1.c1 ^ 2 + a.c1.c0 * a.c1.c2 - 3 * a.c0.c2 * a.c0.c1) + 1 := by
+  have key : g0Defect ξ a = 0 := by
+    by_contra hd
+    have z3 : a.c0.c2 = 0 := (mul_eq_zero.mp (cyc_g0_mul_g3 ξ a h)).resolve_right hd
+    have z1 : a.c1.c1 = 0 := (mul_eq_zero.mp (cyc_g0_mul_g1 ξ a h)).resolve_right hd
+    have z4 : a.c0.c1 = 0 := (mul_eq_zero.mp (cyc_g0_mul_g4 ξ a h)).resolve_right hd
+    have z5 : a.c1.c2 = 0 := (mul_eq_zero.mp (cyc_g0_mul_g5 ξ a h)).resolve_right hd
+    have e3 := h.r3a
+    rw [z3, z1, z4, z5] at e3
+    have z2 : a.c1.c0 = 0 := by
+      have : a.c1.c0 ^ 2 = 0 := by linear_combination -e3
+      exact pow_eq_zero_iff (two_ne_zero) |>.mp this
+    have e1 := h.r1a
+    rw [z3, z1, z4, z5, z2] at e1
+    have : a.c0.c0 * (a.c0.c0 - 1) = 0 := by linear_combination -e1
+    rcases mul_eq_zero.mp this with z0 | z0
+    · exact hne ⟨z0, z4, z3, z2, z1, z5⟩
+    · apply hd
+      unfold g0Defect
+      rw [z3, z1, z4, z5, z2]
+      linear_combination z0
+  unfold g0Defect at key
+  linear_combination key
+
+/-- **decompression, regular case** (g2 ≠ 0): from any operand carrying the four retained coefficients of a cyclotomic
+    element a, fp12_back_cyc returns a -/
+theorem fp12BackCyc_eq (h2 : (2 : F) ≠ 0) (a x : Fp12 F) (h : IsCyc12 ξ a)
+    (h01 : x.c0.c1 = a.c0.c1) (h02 : x.c0.c2 = a.c0.c2) (h10 : x.c1.c0 = a.c1.c0) (h12 : x.c1.c2 = a.c1.c2)
+    (hg2 : a.c1.c0 ≠ 0) : fp12BackCyc fo nor false x = a := by
+  have hne : NonZero12 a := fun hz => hg2 hz.2.2.2.1
+  have hg0 := cyc_g0 ξ a h hne
+  have hg1 := cyc_g1 ξ a h
+  have h4 : a.c1.c0 + a.c1.c0 + (a.c1.c0 + a.c1.c0) ≠ 0 := by
+    have : a.c1.c0 + a.c1.c0 + (a.c1.c0 + a.c1.c0) = 2 * 2 * a.c1.c0 := by ring
+    rw [this]; exact mul_ne_zero (mul_ne_zero h2 h2) hg2
+  have e11 : (ξ * (a.c1.c2 * a.c1.c2) + (a.c0.c1 * a.c0.c1 - a.c0.c2 + (a.c0.c1 * a.c0.c1 - a.c0.c2) + a.c0.c1 * a.c0.c1)) *
+      (a.c1.c0 + a.c1.c0 + (a.c1.c0 + a.c1.c0))⁻¹ = a.c1.c1 := by
+    rw [mul_inv_eq_iff_eq_mul₀ h4]
+    linear_combination -hg1
+  apply Fp12.ext' <;>
+  simp only [fp12BackCyc, fieldOps, rOps_isZero, rOps_add, rOps_sub, rOps_mul, rOps_sqr, rOps_dbl, rOps_inv, rOps_one, h01, h02, h10, h12,
+    decide_eq_true_eq, hg2, if_false, Bool.false_eq_true, e11]
+  linear_combination -hg0
+
+/-- decompression of the identity presented as the identity (the case the C code tests first) -/
+theorem fp12BackCyc_one : fp12BackCyc fo nor true ⟨⟨1, 0, 0⟩, ⟨0, 0, 0⟩⟩ = ⟨⟨1, 0, 0⟩, ⟨0, 0, 0⟩⟩ := by
+  apply Fp12.ext' <;>
+  simp [fp12BackCyc, fieldOps]
+
+/-- **decompression, exceptional case** (g2 = 0, g3 ≠ 0): what the C code computes for g1 is
+    (ξ·g5² + 3·(2·g4·g5) − 2·g3)/g3, and it is the coefficient of a only if g4·(4·g5 − 3·g4) = 0; the correct value is
+    2·g4·g5/g3 (`cyc_g1_exc`). This is finding C10-F8: the statement of the property fails in this branch. -/
+theorem fp12BackCyc_exc_iff (a x : Fp12 F) (h : IsCyc12 ξ a)
+    (h01 : x.c0.c1 = a.c0.c1) (h02 : x.c0.c2 = a.c0.c2) (h10 : x.c1.c0 = a.c1.c0) (h12 : x.c1.c2 = a.c1.c2)
+    (hg2 : a.c1.c0 = 0) (hg3 : a.c0.c2 ≠ 0) :
+    (fp12BackCyc fo nor false x).c1.c1 = a.c1.c1 ↔ a.c0.c1 * (4 * a.c1.c2 - 3 * a.c0.c1) = 0 := by
+  have hg1 := cyc_g1 ξ a h
+  have hex := cyc_g1_exc ξ a h hg2
+  rw [hg2] at hg1
+  simp only [fp12BackCyc, fieldOps, rOps_isZero, rOps_add, rOps_sub, rOps_mul, rOps_sqr, rOps_dbl, rOps_inv, rOps_one, h01, h02, h10, h12,
+    decide_eq_true_eq, hg2, if_true, if_false, Bool.false_eq_true]
+  rw [mul_inv_eq_iff_eq_mul₀ hg3]
+  constructor
+  · intro e; linear_combination e + hg1 + hex
+  · intro e; linear_combination e - hg1 - hex
+
+/-- the correct exceptional formula: g1 = 2·g4·g5/g3 -/
+theorem cyc_g1_exc_div (a : Fp12 F) (h : IsCyc12 ξ a) (hg2 : a.c1.c0 = 0) (hg3 : a.c0.c2 ≠ 0) :
+    a.c1.c1 = 2 * a.c0.c1 * a.c1.c2 * (a.c0.c2)⁻¹ := by
+  rw [eq_mul_inv_iff_mul_eq₀ hg3]
+  linear_combination cyc_g1_exc ξ a h hg2
+
+end backcyc
+
+/-! ### the relations from the p²-power map (abstractly)
+
+K4 any commutative ring with an involutive ring endomorphism `conj` (the p²-power map on fp4), s ∈ K4 with
+conj s = −s, γ ∈ K4 fixed by conj with γ² − γ + 1 = 0. For α = a + b·w + c·w² (w³ = s) put
+φ(α) = conj a + γ·conj b·w + γ²·conj c·w² — the p²-power map when γ = ξ^((p²−1)/6). Then α·φ(φ(α)) = φ(α), i.e.
+α^(p⁴+1) = α^(p²), is equivalent to the three Granger–Scott relations. -/
+
+section frobenius
+variable {K : Type} [CommRing K] (conj : K →+* K) (s γ : K)
+
+def frobQ (x : V3 K) : V3 K := ⟨conj x.c0, γ * conj x.c1, γ ^ 2 * conj x.c2⟩
+
+theorem cyc_relations_iff (hinv : ∀ z, conj (conj z) = z) (hγ : γ ^ 2 - γ + 1 = 0) (hcγ : conj γ = γ) (x : V3 K) :
+    cubProd s x (frobQ conj γ (frobQ conj γ x)) = frobQ conj γ x ↔
+      (x.c1 * x.c2 * s = x.c0 ^ 2 - conj x.c0 ∧ x.c0 * x.c1 = x.c2 ^ 2 * s + conj x.c1 ∧ x.c0 * x.c2 = x.c1 ^ 2 - conj x.c2) := by
+  have hu : γ * (1 - γ) = 1 := by linear_combination -hγ
+  have h3 : γ ^ 3 = -1 := by linear_combination (γ + 1) * hγ
+  constructor
+  · intro hx
+    have e0 := congrArg V3.c0 hx
+    have e1 := congrArg V3.c1 hx
+    have e2 := congrArg V3.c2 hx
+    simp only [cubProd, frobQ, map_mul, map_pow, hinv, hcγ] at e0 e1 e2
+    refine ⟨?_, ?_, ?_⟩
+    · linear_combination (-1 : K) * e0 + (x.c1 * x.c2 * s * (γ ^ 2 + γ + 1)) * hγ
+    · have : γ * (x.c0 * x.c1 - x.c2 ^ 2 * s - conj x.c1) = 0 := by
+        linear_combination e1 - (x.c0 * x.c1 + s * x.c2 ^ 2 * γ * (γ + 1)) * hγ
+      linear_combination (1 - γ) * this + (x.c0 * x.c1 - x.c2 ^ 2 * s - conj x.c1) * hγ
+    · have : γ ^ 2 * (x.c1 ^ 2 - x.c0 * x.c2 - conj x.c2) = 0 := by
+        linear_combination e2 - (x.c0 * x.c2 * (γ ^ 2 + γ + 1)) * hγ
+      linear_combination (-(1 - γ) ^ 2) * this +
+        (-(x.c1 ^ 2 - x.c0 * x.c2 - conj x.c2) * (2 - (γ ^ 2 - γ + 1))) * hγ
+  · rintro ⟨r1, r2, r3⟩
+    apply V3.ext' <;> simp only [cubProd, frobQ, map_mul, map_pow, hinv, hcγ]
+    · linear_combination (γ ^ 4 + γ - 1) * r1 +
+        (x.c0 ^ 2 * γ ^ 2 + x.c0 ^ 2 * γ + x.c1 * x.c2 * s - conj x.c0 * γ ^ 2 - conj x.c0 * γ) * hγ
+    · linear_combination (-γ ^ 4) * r2 +
+        (x.c0 * x.c1 * γ ^ 2 + x.c0 * x.c1 * γ + x.c0 * x.c1 - conj x.c1 * γ ^ 2 - conj x.c1 * γ) * hγ
+    · linear_combination (1 - γ) * r3 + (x.c0 * x.c2 * γ ^ 2 + x.c0 * x.c2 * γ + x.c1 ^ 2 - conj x.c2) * hγ
+
+end frobenius
+
 end Relic.Lemmas.Fpx
